@@ -19,8 +19,13 @@
          ev = c<S>:<cmd> | m<S>:<cmd>/… | t<S>:<dt> | x<S>:<hexkey>
             | l<S>:<l|j|r>:<mv>:<fields> | s<S>:<mv>:<cmd>/… | b<S>:<form>:<args…>
          (S = A|B: the site the event happens at / the link's SOURCE site)
+    c13 cpname <hexbuf>        → <hex of checkpoint.NewBisyncCheckpointName for those random bytes>
+    c13 names <start>…         → <name>… ; <id>=<name>,…      (the checkpoint hash after the starts)
+         start = b:<id1>:<id2>:<hexbuf>:<f|s> (desired recovery family: frontier | sync) | p:<id1>:<id2> | s:<id1>:<id2>:<hexsuffix>
+         whether a start switches the format and what UpdateCheckpoint relabels / drops is COMPUTED (runFull)
 -/
 import GunYu.Model.BisyncSite
+import GunYu.Model.BisyncNames
 namespace GunYu.Drive.C13
 open GunYu GunYu.BisyncUnit GunYu.Bisync
 
@@ -139,6 +144,8 @@ def book? : List String → Option Bookkeeping
   | ["ld", cp, tag] => do pure (.latestDel (← Hex.decode cp) (← Hex.decode tag))
   | ["rd", cp] => do pure (.rootDel (← Hex.decode cp))
   | ["fd", cp] => do pure (.frontierDel (← Hex.decode cp))
+  | ["md", cp, tag] => do pure (.markerDel (← Hex.decode cp) (← Hex.decode tag))
+  | ["nd", cp, keys] => do pure (.nsDel (← Hex.decode cp) (← hexList? keys))
   | _ => none
 
 def ev? (tok : String) : Option Ev :=
@@ -184,6 +191,19 @@ def ev? (tok : String) : Option Ev :=
         | [p, q] => do pure (.restart sid (← p.toNat?) (← q.toNat?))
         | _ => none
       else none
+  | _ => none
+
+def optId? (s : String) : Option (Option Bytes) :=
+  if s == "-" then some none else (Hex.decode s).map some
+
+def start? (tok : String) : Option FullStart :=
+  match tok.splitOn ":" with
+  | ["b", i1, i2, buf, fam] => do
+    pure ⟨← Hex.decode i1, ← Hex.decode i2, .bisync (← Hex.decode buf) (fam == "f")⟩
+  | ["p", i1, i2] => do
+    pure ⟨← Hex.decode i1, ← Hex.decode i2, .plain⟩
+  | ["s", i1, i2, suf] => do
+    pure ⟨← Hex.decode i1, ← Hex.decode i2, .plainSlot (← Hex.decode suf)⟩
   | _ => none
 
 def tagStr : Tag → String
@@ -259,6 +279,19 @@ def handle : List String → Option (List String)
       let (w, trace) := runTrace cfg w0 evs []
       some [" ".intercalate (if trace.isEmpty then ["."] else trace) ++ s!" ; commits={commitsStr w.commits} ; A={streamStr w.a.stream} ; B={streamStr w.b.stream}"]
     | _, _, _, _, _, _ => some ["bad-op"]
+  | ["c13", "cpname", h] =>
+    match Hex.decode h with
+    | some buf => some [Hex.encode (newCpName buf)]
+    | none => some ["bad-op"]
+  | "c13" :: "names" :: toks =>
+    match toks.mapM start? with
+    | some ss =>
+      let r := runFull {} ss
+      let names := if r.2.isEmpty then "." else " ".intercalate (r.2.map Hex.encode)
+      let ents := ((r.1.hash.map (fun p => Hex.encode p.1 ++ "=" ++ Hex.encode p.2)).toArray.qsort (· < ·)).toList
+      let hash := if ents.isEmpty then "." else ",".intercalate ents
+      some [names ++ " ; " ++ hash]
+    | none => some ["bad-op"]
   | _ => none
 
 end GunYu.Drive.C13
